@@ -255,6 +255,15 @@ func VxH_C16_paint() {
 	}
 	ctx.drawPage(pages[0])
 	vx.Reach("drawn")
+	// painting is repeatable: a second paint of the same laid-out page gives the same calls (C15)
+	canvas2 := vxNewCanvas()
+	ctx2 := drawContext{
+		dst:               canvas2,
+		hyphenCache:       make(map[text.HyphenDictKey]hyphen.Hyphener),
+		strutLayoutsCache: make(map[text.StrutLayoutKey][2]pr.Float),
+	}
+	ctx2.drawPage(pages[0])
+	vx.Assert("second-paint-identical", vxStrsEq(*canvas.log, *canvas2.log))
 	vx.Assert("paint-and-clip-follow-a-path", len(*canvas.protocol) == 0)
 	p := &vxPainter{out: []string{"bg:html"}}
 	p.paint(html)
